@@ -743,5 +743,5 @@ def run(res, tier):
                 "produced a message")
     std.run_standard(res, PID, tier, area="dns", build_impl=impl, gen_cases=gen_cases, oracle=oracle_sig,
                      corr_name="DnsModel vs src/dns/rfc1035.cc, rfc3596.cc, rfc2671.cc (ASan+UBSan)",
-                     gens=["dns"], n_quick=40000, n_thorough=500000, seed_salt=37, mutate=mutate,
+                     gens=["dns"], n_quick=20000, n_thorough=500000, seed_salt=37, mutate=mutate,
                      kind_fn=kind, nontrivial_fn=nontrivial)
